@@ -279,6 +279,7 @@ func registerLaws(r *mc.Registry) {
 	}
 	itDom = append(itDom,
 		named[func(*Env) fp.Iterator[string]]{"Empty", func(*Env) fp.Iterator[string] { return iterator.Empty[string]() }},
+		named[func(*Env) fp.Iterator[string]]{"zero-value", func(*Env) fp.Iterator[string] { return fp.Iterator[string]{} }},
 		named[func(*Env) fp.Iterator[string]]{"Concat[a][b]", func(*Env) fp.Iterator[string] { return iterator.Of("a").Concat(iterator.Of("b")) }},
 	)
 	registerLawSet(r, lawSet[fp.Iterator[string]]{
@@ -335,6 +336,7 @@ func registerLaws(r *mc.Registry) {
 				return lazy.TailCall(func() lazy.Eval[string] { return lazy.Done(s + "~") })
 			}},
 			{"const", func(*Env, string) lazy.Eval[string] { return lazy.Done("k") }},
+			{"zero-value", func(*Env, string) lazy.Eval[string] { return lazy.Eval[string]{} }},
 			{"chain", func(_ *Env, s string) lazy.Eval[string] {
 				return lazy.Done(s).FlatMap(func(t string) lazy.Eval[string] {
 					return lazy.Call(func() string { return t + "1" }).FlatMap(func(u string) lazy.Eval[string] { return lazy.Done(u + "2") })
